@@ -1,0 +1,61 @@
+//go:build verif
+
+// Contracts for package priorityqueue (comment-only; read by /verif/engine, never compiled into the package).
+
+package priorityqueue
+
+//@ pred Inv(q) := q != nil && q.heap != nil && binaryheap.Inv(q.heap) && q.Comparator == q.heap.Comparator
+//@ pred L(q) := binaryheap.L(q.heap)
+//@ pred N(q) := binaryheap.N(q.heap)
+//@ pred Config(q) := q.heap == old(q.heap) && q.Comparator == old(q.Comparator) && binaryheap.Config(q.heap)
+
+//@ func NewWith
+//@   requires comparator != nil && binaryheap.SWO(comparator, argof(comparator, 0))
+//@   modifies nothing
+//@   ensures [C06 C15 C17] fresh(result) && Inv(result) && N(result) == 0 && result.Comparator == comparator
+
+//@ func Queue.Enqueue
+//@   requires Inv(queue)
+//@   modifies queue.heap.list.elements, elems(queue.heap.list.elements)
+//@   ghostvar src := idmap
+//@   ghostvar sinv := idmap
+//@   at after Push#1: src := res_src
+//@   at after Push#1: sinv := res_sinv
+//@   ghostresult src mapint
+//@   ghostresult sinv mapint
+//@   ensures [C06 C17] Inv(queue) && Config(queue) && N(queue) == old(N(queue)) + 1
+//@   ensures [C06] multiset: binaryheap.IsPerm(src, sinv, N(queue)) && (forall k :: 0 <= k && k < N(queue) ==> L(queue)[k] == (old(L(queue)) ++ [value])[src[k]])
+
+//@ func Queue.Dequeue
+//@   requires Inv(queue)
+//@   modifies queue.heap.list.elements, elems(queue.heap.list.elements)
+//@   ghostvar src := idmap
+//@   at after Pop#1: src := res_src
+//@   ghostresult src mapint
+//@   ensures [C06 C17] Inv(queue) && Config(queue)
+//@   ensures [C06] empty: old(N(queue)) == 0 ==> !ok && value == zero(value) && N(queue) == 0
+//@   ensures [C06] nonempty: old(N(queue)) > 0 ==> ok && value == old(L(queue))[0] && N(queue) == old(N(queue)) - 1
+//@   ensures [C06] minimum: old(N(queue)) > 0 ==> (forall k :: 0 <= k && k < old(N(queue)) ==> queue.Comparator(value, old(L(queue))[k]) <= 0)
+//@   ensures [C06] multiset: (forall k :: 0 <= k && k < N(queue) ==> 1 <= src[k] && src[k] < old(N(queue)) && L(queue)[k] == old(L(queue))[src[k]])
+//@     && (forall a, b :: 0 <= a && a < b && b < N(queue) ==> src[a] != src[b])
+
+//@ func Queue.Peek
+//@   requires Inv(queue)
+//@   modifies nothing
+//@   ensures [C06 C17 C18] N(queue) == 0 ==> !ok && value == zero(value)
+//@   ensures [C06 C17 C18] N(queue) > 0 ==> ok && value == L(queue)[0] && (forall k :: 0 <= k && k < N(queue) ==> queue.Comparator(value, L(queue)[k]) <= 0)
+
+//@ func Queue.Empty
+//@   requires Inv(queue)
+//@   modifies nothing
+//@   ensures [C15 C17 C18] result == (N(queue) == 0)
+
+//@ func Queue.Size
+//@   requires Inv(queue)
+//@   modifies nothing
+//@   ensures [C06 C15 C17 C18] result == N(queue) && result >= 0
+
+//@ func Queue.Clear
+//@   requires Inv(queue)
+//@   modifies queue.heap.list.elements, elems(queue.heap.list.elements)
+//@   ensures [C06 C15 C17] Inv(queue) && Config(queue) && N(queue) == 0
